@@ -333,6 +333,30 @@ def _check_workers(pool, pids0):
         raise HarnessError("a worker process of the check died (pids %s gone): its task is lost; re-run the check" % sorted(pids0 - now))
 
 
+def _shutdown_pool(pool):
+    """terminate()/join() can wait forever on a worker that is blocked (on a full pipe, or on the task-queue lock that a
+    worker held when it was terminated): run them in a helper thread, and after a grace period kill what is left."""
+    import threading
+    pids = _pool_pids(pool)
+
+    def _shutdown():
+        try:
+            pool.terminate()
+            pool.join()
+        except Exception:
+            pass
+    t = threading.Thread(target=_shutdown, daemon=True)
+    t.start()
+    t.join(10)
+    if t.is_alive():
+        for pid in pids:
+            try:
+                os.kill(pid, signal.SIGKILL)
+            except OSError:
+                pass
+        t.join(20)
+
+
 def _apply_chunk(args):
     fn, chunk = args
     return [fn(x) for x in chunk]
@@ -345,7 +369,8 @@ def pmap(fn, items, jobs=None, chunksize=1):
     if jobs <= 1 or len(items) <= 1:
         return [fn(x) for x in items]
     ctx = mp.get_context("fork")
-    with ctx.Pool(jobs) as pool:
+    pool = ctx.Pool(jobs)
+    try:
         pids0 = _pool_pids(pool)
         res = pool.map_async(fn, items, chunksize)
         while True:
@@ -353,6 +378,8 @@ def pmap(fn, items, jobs=None, chunksize=1):
             if res.ready():
                 return res.get()
             _check_workers(pool, pids0)
+    finally:
+        _shutdown_pool(pool)
 
 
 def pimap(fn, items, jobs=None, chunksize=1):
@@ -377,13 +404,4 @@ def pimap(fn, items, jobs=None, chunksize=1):
             for r in rs:
                 yield r
     finally:
-        # leaving the loop early (exception, break) can leave terminate()/join() waiting on a worker that is
-        # blocked on a full pipe: do the shutdown in a helper thread and stop waiting for it after a while
-        import threading
-
-        def _shutdown():
-            pool.terminate()
-            pool.join()
-        t = threading.Thread(target=_shutdown, daemon=True)
-        t.start()
-        t.join(30)
+        _shutdown_pool(pool)
